@@ -13,8 +13,8 @@ import (
 	"hash/fnv"
 	"runtime"
 	"runtime/debug"
-	"strings"
 	"sort"
+	"strings"
 	"sync"
 	"sync/atomic"
 	"testing/synctest"
@@ -124,27 +124,27 @@ func DefaultConfig() Config {
 }
 
 type Run struct {
-	mu     sync.Mutex
-	Tape   *Tape
-	Rand   *Rand
-	cfg    Config
-	tasks  map[uintptr]*Task
-	all    []*Task
-	holder atomic.Pointer[Task]
+	mu       sync.Mutex
+	Tape     *Tape
+	Rand     *Rand
+	cfg      Config
+	tasks    map[uintptr]*Task
+	all      []*Task
+	holder   atomic.Pointer[Task]
 	barrierT *Task // holder waiting for the goroutines it woke to reach their parking points
-	last   *Task
-	root   *Task
-	stop   atomic.Bool
+	last     *Task
+	root     *Task
+	stop     atomic.Bool
 
 	Steps  int64
 	Points int64
 	Start  time.Time
 	End    time.Time
 
-	locks  map[uintptr]*lockInfo
-	closed map[uintptr]any
-	chvc   map[uintptr]VC
-	timers []*ktimer
+	locks    map[uintptr]*lockInfo
+	closed   map[uintptr]any
+	chvc     map[uintptr]VC
+	timers   []*ktimer
 	nforeign int
 
 	pctChange []int64
@@ -412,6 +412,11 @@ func (r *Run) mixDigest(s string, n int64) {
 	r.digest = h.Sum64()
 }
 
+// WallExceeded is set by a watchdog goroutine that lives outside the
+// bubble (real clock) when the current run has used up its real-time
+// budget; the scheduler loop then ends the run as "budget".
+var WallExceeded atomic.Bool
+
 // Execute runs root as task "0" under the scheduler and returns when root
 // has finished, a failure was recorded, nothing can make progress, or the
 // step budget is exhausted.  Must be called inside a synctest bubble.
@@ -558,6 +563,13 @@ func (r *Run) loop() {
 		}
 		if r.Steps >= r.cfg.MaxSteps {
 			r.failures = append(r.failures, &Failure{Kind: "budget", Check: "step-budget", Detail: "step budget exhausted", Step: r.Steps})
+			r.mu.Unlock()
+			return
+		}
+		if WallExceeded.Load() {
+			// real time, measured outside the bubble: an overloaded machine must
+			// not turn a long run into a hung worker.  Never a violation.
+			r.failures = append(r.failures, &Failure{Kind: "budget", Check: "wall-budget", Detail: "real-time budget of one run exhausted (overloaded machine?)", Step: r.Steps})
 			r.mu.Unlock()
 			return
 		}
